@@ -17,20 +17,25 @@ class FrameError(Exception):
     pass
 
 
-def frame(packet_id, data, threshold=None, compress_at=None, level=6):
+def frame(packet_id, data, threshold=None, compress_at=None, level=6,
+          pad=0):
     """Encode one packet.  threshold None = uncompressed format.
     compress_at: payload size from which the body is compressed (defaults to
-    the vanilla rule size >= threshold; never compress when threshold < 0)."""
+    the vanilla rule size >= threshold; never compress when threshold < 0).
+    pad: width (in bytes) of zero-padded, non-minimal frame- and data-length
+    fields, as fixed-width writers (proxies) emit; 0 = minimal."""
+    enc = varint.encode if not pad else \
+        (lambda n: varint.encode_padded(n, pad))
     payload = varint.encode(packet_id) + bytes(data)
     if threshold is None:
-        return varint.encode(len(payload)) + payload
+        return enc(len(payload)) + payload
     if compress_at is None:
         compress_at = threshold
     if threshold >= 0 and len(payload) >= compress_at:
-        body = varint.encode(len(payload)) + zlib.compress(payload, level)
+        body = enc(len(payload)) + zlib.compress(payload, level)
     else:
         body = varint.encode(0) + payload
-    return varint.encode(len(body)) + body
+    return enc(len(body)) + body
 
 
 def parse_stream(data, compressed=False, threshold=None, strict_threshold=True):
